@@ -70,6 +70,11 @@ def bits_of(d):
     return struct.unpack("<Q", struct.pack("<d", d))[0]
 
 
+def dbl_tok(d):
+    """a double as its IEEE-754 bit pattern; every NaN is `nan`"""
+    return "nan" if d != d else "%016x" % bits_of(d)
+
+
 def cstr(s):
     k = s.find(b"\0")
     return s if k < 0 else s[:k]
@@ -240,7 +245,7 @@ def obs_var(v, r):
         def q(x):
             return "?" if x is None else str(x)
         o = (f"{TYPE_NO[v[0]]} {1 if to_bool(v) else 0} {q(to_int_generic(v, True, 32))} {q(to_int_generic(v, False, 32))} "
-             f"{q(to_int_generic(v, True, 64))} {q(to_int_generic(v, False, 64))} {'z' if to_double(v) == 0.0 else 'n'} "
+             f"{q(to_int_generic(v, True, 64))} {q(to_int_generic(v, False, 64))} {'z' if to_double(v) == 0.0 else 'n'} {dbl_tok(to_double(v))} "
              f"{hexs(to_string(v))} {r} ?")       # last token: the value with reference counts (model vs implementation only)
         if len(_obs_cache) < 200000:
             _obs_cache[r] = o
@@ -549,7 +554,8 @@ reference.eq = line_eq
 # ---- generators ----------------------------------------------------------------------------------
 DBL_VALUES = [0.0, -0.0, 1.0, -1.0, 0.5, -0.5, 1.5, -2.5, 3.0, 2147483647.0, 2147483648.0, -2147483648.0, -2147483649.0,
               4294967295.0, 4294967296.0, 2.0**53, 2.0**63, -2.0**63, 2.0**64, 1e10, 1e300, math.inf, -math.inf, 5e-324,
-              0.1, 123456.789, 0.0000005, 0.0000015, 2.5e-7, 9007199254740993.0, 0.9999995, -0.99, 255.0, 65536.5]
+              0.1, 123456.789, 0.0000005, 0.0000015, 2.5e-7, 9007199254740993.0, 0.9999995, -0.99, 255.0, 65536.5,
+              float(2**64 - 2048), float(2**63 - 1024), float(2**63 + 2048), 2.0**53 + 2, -(2.0**53 + 2), -float(2**63 - 1024), 2.0**32, 2.0**31]
 STR_VALUES = [b"", b"0", b"1", b"-1", b"0.0", b"00", b".", b"0.", b".0", b"00.00", b"0.01", b"false", b"FALSE", b"False", b"true",
               b" 42", b"+7", b"-0", b"1e3", b"4294967296", b"4294967295", b"2147483648", b"-2147483649", b"9223372036854775807",
               b"9223372036854775808", b"18446744073709551615", b"18446744073709551616", b"-9223372036854775809",
@@ -558,8 +564,10 @@ STR_VALUES = [b"", b"0", b"1", b"-1", b"0.0", b"00", b".", b"0.", b".0", b"00.00
               b"0x10", b"0X1.8p1", b"-0x.8", b"0x", b"0xg", b"0x.p1", b"0x1p-1074", b"0x1p-1075", b"0x1.fffffffffffff8p1023",
               b"0x1.00000000000008p0", b"0x1.00000000000018p0", b" +0xAp+2", b"0x1p", b"0x1p+", b"0x0.0p9"]
 INT_EDGES = {'i': [0, 1, -1, 2**31 - 1, -2**31, 255, -128], 'u': [0, 1, 2**32 - 1, 2**31, 255],
-             'l': [0, 1, -1, 2**63 - 1, -2**63, 2**31, -2**31 - 1, 2**32, 2**53 + 1, -(2**53 + 1)],
-             'q': [0, 1, 2**64 - 1, 2**63, 2**32, 2**53 + 1, 2**64 - 1025]}
+             'l': [0, 1, -1, 2**63 - 1, -2**63, 2**31, -2**31 - 1, 2**32, 2**53 + 1, -(2**53 + 1), 2**53 + 3, 2**63 - 1024, 2**63 - 513,
+                   2**63 - 512, -(2**63 - 1024), 2**62 + 257],
+             'q': [0, 1, 2**64 - 1, 2**63, 2**32, 2**53 + 1, 2**64 - 1025, 2**63 - 1, 2**63 + 1, 2**63 + 1024, 2**63 + 1025, 2**63 + 3072,
+                   2**64 - 2048, 2**64 - 1024, 2**53, 2**53 + 3, 2**63 - 1024]}
 KEYS = [b"k", b"a", b"", b"key2", b"K"]
 
 
@@ -651,6 +659,18 @@ def gen_history(rng, length):
             continue
         st.apply(op)
         h.append(op)
+        # numeric twin: an integer literal is followed by the double it converts to (or a neighbour) in another
+        # variable, so that the == matrix compares double and integer alternatives in both directions
+        t = op.split()
+        if t[0] == "new" and len(t) == 3 and re.fullmatch(r"[iulq]-?[0-9]+", t[2]) and nv >= 2 and rng.random() < 0.6:
+            x = int(t[2][1:])
+            d = float(x)
+            if rng.random() < 0.25:
+                d = math.nextafter(d, rng.choice([-math.inf, math.inf]))
+            w2 = rng.choice([y for y in range(nv) if y != v])
+            op2 = f"new {w2} d{bits_of(d):016x}"
+            st.apply(op2)
+            h.append(op2)
     return h
 
 
@@ -660,6 +680,7 @@ SMALL_OPS = [
     "mut 0 . lapp v1", "mut 0 . lapp i2", "mut 1 . lapp s61", "mut 0 l0 set i7", "mut 1 l0 lapp v0", "mut 1 l0 touch 8",
     "mut 0 . aapp v1", "mut 1 a0 set b1", "mut 0 . mput 6b v1", "mut 1 m6b lapp i3", "mut 1 . touch 10", "mut 1 . sapp 62",
     "mut 0 . set list v0 v1", "mut 0 . set s31", "get 2 0 l0", "get 0 0 l0", "get 1 1 m6b", "mut 0 . lrem 0", "mut 1 l0/l0 set u5",
+    "new 2 q18446744073709549568", "new 1 d43efffffffffffff",     # 2^64 - 2048 and the double it converts to exactly
 ]
 
 
